@@ -37,9 +37,18 @@ def _multires(draw):
     return spec
 
 
+@st.composite
+def _explicit(draw):
+    """no [ link ] but one that lists bonds by atom number: the residue-graph edges it covers are realised,
+    every other one is reported"""
+    spec = draw(gp.case(max_res=6, min_res=2, with_links=False, routes=("json",), explicit_links="adjacent"))
+    spec["half"] = "gen_params"
+    return spec
+
+
 def strategy(tier):
     from . import c10coords
-    return st.one_of(_strategy(), _strategy(), _strategy(), _multires(), c10coords.strategy())
+    return st.one_of(_strategy(), _strategy(), _strategy(), _multires(), _explicit(), c10coords.strategy())
 
 
 def check(spec, ctx):
@@ -82,8 +91,18 @@ def check(spec, ctx):
             ra, rb = pre.atoms[a - 1]["resid"], pre.atoms[b - 1]["resid"]
             if ra != rb:
                 model_cross.add(frozenset((ra, rb)))
+    # what the written file says: residues joined by a written bond or constraint
+    wres = {a["idx"]: a["resid"] for a in written["atoms"]}
+    written_cross = set()
+    for sec in ("bonds", "constraints"):
+        for it in written["inter"].get(sec, []):
+            if wres[it["atoms"][0]] != wres[it["atoms"][1]]:
+                written_cross.add(frozenset((wres[it["atoms"][0]], wres[it["atoms"][1]])))
     n_missing = n_real = 0
     for key in requested:
+        if key in written_cross and key in warned:
+            raise Violation("both:written_bond", f"residues {sorted(key)} are joined by a bond in the written file "
+                                                 f"and reported missing")
         if model_cross is not None and not pre.removed and key in cross and key not in model_cross and key not in warned:
             raise Violation("neither", f"residues {sorted(key)}: not reported missing, and the only atom-level edge between "
                                        f"them is defined by no applicable link")
